@@ -107,3 +107,31 @@ pub fn run(tier: &str, seed: u64) -> i32 {
     };
     finish(v, &kf)
 }
+
+/// Replay one recorded case against a freshly generated and compiled C++ driver.
+pub fn replay_file(rec: &Value) -> Option<(Vec<RFail>, std::collections::BTreeSet<String>)> {
+    let d = serde_json::from_value::<pdlv_core::model::Desc>(rec["model"].clone()).ok()?;
+    let text = pdlv_core::print::plain(&d);
+    let rd = RemoteDesc { idx: 0, desc: d, text: text.clone(), strata: vec![] };
+    let (pf, db) = parse("h0.pdl", &text).ok()?;
+    let af = guarded(|| analyze(&pf)).ok()?.ok()?;
+    let h = guarded(|| pdl_compiler::backends::cxx::generate(&db, &af, Some("ns"), &[], &[], &[])).ok()?;
+    let mut headers = BTreeMap::new();
+    headers.insert(0usize, h);
+    let mut baked: BTreeMap<usize, BTreeMap<String, Vec<Value>>> = BTreeMap::new();
+    if !rec["input"]["json"].is_null() {
+        let mut m = BTreeMap::new();
+        m.insert(rec["type"].as_str().unwrap_or("").to_string(), vec![rec["input"]["json"].clone()]);
+        baked.insert(0, m);
+    }
+    let fdir = work_dir().join(format!("cxx-replay-{}", std::process::id()));
+    let b1 = build_all(&fdir, std::slice::from_ref(&rd), baked, &headers);
+    let out = if b1.exes.contains_key(&0) {
+        let mut t = CxxTarget::new(&b1);
+        Some(replay_one(Backend::Cxx, &mut t, &rd, rec))
+    } else {
+        None
+    };
+    let _ = std::fs::remove_dir_all(&fdir);
+    out
+}
